@@ -317,8 +317,8 @@ def correspondence(ctx, model_ok=True):
     rng = ctx.rng.fork("c05")
     failures = []
     broken = []
-    n_e = 3000 if ctx.thorough else 1200
-    n_c = 3000 if ctx.thorough else 1200
+    n_e = 15000 if ctx.thorough else 1200
+    n_c = 15000 if ctx.thorough else 1200
     cases = []
     tags = {}
     for i in range(n_e):
@@ -350,7 +350,7 @@ def correspondence(ctx, model_ok=True):
         c = progs.canon_step(r)
         if (exp is not None and (c[0] != "ok" or list(c[2]) != exp)) or (exp is None and c[0] != "ok"):
             failures.append({"what": "known scenario %s: %s" % (name, c), "program": src, "expected": exp, "signature": "known " + name.split("-")[0], "failing_input": True})
-    gen = progs.generated(rng, ["expr", "control", "typed", "typed-try"], 1600 if ctx.thorough else 600)
+    gen = progs.generated(rng, ["expr", "control", "typed", "typed-try"], 8000 if ctx.thorough else 600)
     sd = specdiff.diff(ctx, [(n, s, m) for n, s, m, _ in gen], "C05", broken) if model_ok else {"failures": [], "compared": 0}
     failures += sd["failures"]
     cov = {
